@@ -405,6 +405,45 @@ static Verdict c15_math(const Case& c) {
   return V;
 }
 
+// ================================================================================================ in-place scaling by a number that refers into the object
+// x *= x.Mutable_c() / x /= x.Mutable_c(): the scalar is passed as an lvalue that aliases a component of the object being scaled; the result must be
+// the same as scaling by a copy of that number (and as the pure operator)
+template <class T> static std::string alias_lib(int shape, int k, bool divide, const LD* a) {
+  LD got[9], want[9];
+  auto finish = [&](const char* what, int n) -> std::string {
+    for (int i = 0; i < n; i++) if (std::memcmp(&got[i], &want[i], 10) != 0 && !(std::isnan(got[i]) && std::isnan(want[i])))
+      return fmt("%s by a reference to its own component %d: slot %d is %s, scaling by a copy of that number gives %s", what, k, i, hexld(got[i]).c_str(), hexld(want[i]).c_str());
+    return ""; };
+  if (shape == 2) {
+    PlanarVector<T> x = mk2<T>(a), y = mk2<T>(a); const T s = k == 0 ? y.x() : y.y();
+    T& r = k == 0 ? x.Mutable_x() : x.Mutable_y();
+    if (divide) { x /= r; y /= s; } else { x *= r; y *= s; }
+    fl(x, got); fl(y, want); return finish(divide ? "PlanarVector /=" : "PlanarVector *=", 2);
+  } else if (shape == 3) {
+    Vector<T> x = mk3<T>(a), y = mk3<T>(a); const T s = y.x_y_z()[(size_t)k];
+    T& r = x.Mutable_x_y_z()[(size_t)k];
+    if (divide) { x /= r; y /= s; } else { x *= r; y *= s; }
+    fl(x, got); fl(y, want); return finish(divide ? "Vector /=" : "Vector *=", 3);
+  } else if (shape == 6) {
+    SymmetricDyad<T> x = mk6<T>(a), y = mk6<T>(a); const T s = y.xx_xy_xz_yy_yz_zz()[(size_t)k];
+    T& r = x.Mutable_xx_xy_xz_yy_yz_zz()[(size_t)k];
+    if (divide) { x /= r; y /= s; } else { x *= r; y *= s; }
+    fl(x, got); fl(y, want); return finish(divide ? "SymmetricDyad /=" : "SymmetricDyad *=", 6);
+  }
+  Dyad<T> x = mk9<T>(a), y = mk9<T>(a); const T s = y.xx_xy_xz_yx_yy_yz_zx_zy_zz()[(size_t)k];
+  T& r = x.Mutable_xx_xy_xz_yx_yy_yz_zx_zy_zz()[(size_t)k];
+  if (divide) { x /= r; y /= s; } else { x *= r; y *= s; }
+  fl(x, got); fl(y, want); return finish(divide ? "Dyad /=" : "Dyad *=", 9);
+}
+static Verdict c09_alias(const Case& c) {
+  const int nt = (int)c.i[0], n = (int)c.i[1], k = (int)(c.i[2] % n); const bool divide = c.i[3] != 0;
+  LD a[9]; for (int i = 0; i < n; i++) a[i] = round_to(nt, c.r[(size_t)i]);
+  if (divide && a[k] == 0) return Verdict::skip("division-by-zero");
+  const std::string m = nt == 0 ? alias_lib<float>(n, k, divide, a) : nt == 1 ? alias_lib<double>(n, k, divide, a) : alias_lib<long double>(n, k, divide, a);
+  if (!m.empty()) return Verdict::fail(m + fmt(" [%s, components %s]", ntinfo(nt).name, cs(a, n).c_str()));
+  Verdict V; V.cls = std::string(ntinfo(nt).name) + (divide ? ";/=" : ";*=") + ";component" + std::to_string(k); V.nontrivial = a[k] != 1 && a[k] != 0; return V;
+}
+
 // ================================================================================================ remaining public members of the math types (for C20)
 template <class T> static std::string api_lib(int shape, const LD* a, const LD* b) {
   auto cmp = [&](const char* what, const LD* got, const LD* want, int n) -> std::string {
@@ -458,6 +497,13 @@ static Verdict c20_math_api(const Case& c) {
 
 int main(int argc, char** argv) {
   std::vector<Sub> subs;
+  {
+    Sub s; s.name = "c09.alias"; s.property = "C09"; s.instances = 12; s.n_quick = 1500; s.n_thorough = 30000; s.run = c09_alias;
+    s.gen = [](int inst) { static const int shapes[4] = {2, 3, 6, 9}; const int shape = shapes[inst % 4], nt = inst / 4;
+      return rc::gen::map(rc::gen::tuple(gen_reals(shape, nt, -6, 6, kNeg), irange(0, 8), irange(0, 1)), [=](const std::tuple<std::vector<LD>, int, int>& t) { Case c; c.i = {nt, shape, std::get<1>(t), std::get<2>(t)}; c.r = std::get<0>(t); return c; }); };
+    s.rule = "in-place scaling x *= s and x /= s of the four vector / tensor types where s is an lvalue referring to one of x's own components (every component position): same bits as scaling by a copy of the number; non-trivial: the component is not 0 or 1";
+    subs.push_back(s);
+  }
   {
     Sub s; s.name = "c20.math_api"; s.property = "C20"; s.instances = 12; s.n_quick = 1000; s.n_thorough = 20000; s.run = c20_math_api;
     s.gen = [](int inst) { static const int shapes[4] = {2, 3, 6, 9}; const int shape = shapes[inst % 4], nt = inst / 4;
